@@ -178,7 +178,7 @@ def collect(ctx, n_ir, _unused=0):
 
 def run(ctx):
     status = coqbuild.prove("C05", THEOREMS)
-    agg, items, corr, irs = collect(ctx, 50 if ctx.quick else 700)
+    agg, items, corr, irs = collect(ctx, 50 if ctx.quick else 2100)
     for cls, det, ir in items:
         ctx.item(cls, {"stage": "emit -> source -> parse of the three SQLAlchemy variants", "clause": cls, "input": T.jsonable(ir) if ir else None,
                        "detail": det})
